@@ -4,6 +4,15 @@
 #include "kernels_lib.h"
 #include "EbDefinitions.h"
 #include "drv_block.h"
+#include "drv_txfm.h"
+#include "EbCabacContextModel.h"
+
+extern "C" {
+int16_t svt_av1_dc_quant_qtx(int32_t qindex, int32_t delta, AomBitDepth bit_depth);
+int16_t svt_av1_ac_quant_qtx(int32_t qindex, int32_t delta, AomBitDepth bit_depth);
+int32_t get_qzbin_factor(int32_t q, AomBitDepth bit_depth);
+void    invert_quant(int16_t *quant, int16_t *shift, int32_t d);
+}
 
 namespace c07 {
 
@@ -29,5 +38,542 @@ template <class PIX> static void nxm_sad_common(Run &r, int kind, bool hbd) {
 }
 static void drv_nxm_sad(Run &r) { nxm_sad_common<uint8_t>(r, r.P(0), false); }
 static void drv_nxm_sad16(Run &r) { nxm_sad_common<uint16_t>(r, 1, true); }
+
+// ---- picture analysis: 8x8 means (EbPictureAnalysisProcess.c) ------------------------------------------------------------------------------
+typedef uint64_t (*drv_mean_sq_8x8_fn)(uint8_t *, uint32_t, uint32_t, uint32_t);
+static void drv_mean_sq_8x8(Run &r) {
+    int st = 8 + 8 * (int)r.pick(0, 16);
+    In<uint8_t> in((size_t)st * 8, 64, 8 * (size_t)r.pick(0, 7));
+    in.fill(r, 0, 255, "samples");
+    r.note("stride", st);
+    r.exec([&](AnyFn f) { r.ret((long long)((drv_mean_sq_8x8_fn)f)(in.p(), st, 8, 8)); });   // callers pass (.., stride_y, 8, 8) only
+}
+typedef uint64_t (*drv_sub_mean_8x8_fn)(uint8_t *, uint16_t);
+static void drv_sub_mean_8x8(Run &r) {
+    int st = 8 + 4 * (int)r.pick(0, 32);                               // chroma stride
+    In<uint8_t> in((size_t)st * 8, 64, 4 * (size_t)r.pick(0, 15));
+    in.fill(r, 0, 255, "samples");
+    r.note("stride", st);
+    r.exec([&](AnyFn f) { r.ret((long long)((drv_sub_mean_8x8_fn)f)(in.p(), (uint16_t)st)); });
+}
+typedef void (*drv_interm_var_four8x8_fn)(uint8_t *, uint16_t, uint64_t *, uint64_t *);
+static void drv_interm_var_four8x8(Run &r) {
+    int st = 32 + 8 * (int)r.pick(0, 16);
+    In<uint8_t> in((size_t)st * 8, 64, 8 * (size_t)r.pick(0, 7));
+    in.fill(r, 0, 255, "samples");
+    Out<uint64_t> mean(r, "mean_of8x8_blocks", 4), msq(r, "mean_of_squared8x8_blocks", 4);
+    r.note("stride", st);
+    r.exec([&](AnyFn f) { ((drv_interm_var_four8x8_fn)f)(in.p(), (uint16_t)st, mean.p(), msq.p()); });
+}
+typedef int (*drv_haar_ac_sad_fn)(uint8_t *, int, int);
+static void drv_haar_ac_sad(Run &r) {
+    int st = pick_stride(r, 8, 8);
+    In<uint8_t> in((size_t)st * 8, 64, 8 * (size_t)r.pick(0, 7));
+    in.fill(r, 0, 255, "input");
+    r.exec([&](AnyFn f) { r.ret(((drv_haar_ac_sad_fn)f)(in.p(), st, 0)); });                  // firstpass.c: hbd = 0
+}
+typedef uint32_t (*drv_variance_highbd_fn)(const uint16_t *, int, const uint16_t *, int, int, int, uint32_t *);
+static void drv_variance_highbd(Run &r) {
+    int w = r.pick(0, 1) ? 32 : 16, h = w;                             // temporal filter: 16x16 and 32x32 blocks
+    int as = pick_stride(r, w), bs = pick_stride(r, w);
+    In<uint16_t> a((size_t)as * h, 64, (size_t)r.pick(0, 31)), b((size_t)bs * h, 64, (size_t)r.pick(0, 31));
+    a.fill(r, 0, 1023, "a"); b.fill(r, 0, 1023, "b");
+    Out<uint32_t> sse(r, "sse", 1);
+    r.note("w", w);
+    r.exec([&](AnyFn f) { r.ret(((drv_variance_highbd_fn)f)(a.p(), as, b.p(), bs, w, h, sse.p())); });
+}
+
+// ---- open-loop ME: SAD bookkeeping kernels -----------------------------------------------------------------------------------------------------
+static inline uint32_t pick_me_mv(Run &r) { int y = (int)r.pick(-1024, 1023), x = (int)r.pick(-1024, 1023); return ((uint32_t)(uint16_t)(y * 4) << 16) | (uint16_t)(x * 4); }
+static void fill_best(Run &r, uint32_t *p, size_t n, const char *what) {
+    // running best SADs: MAX_SAD_VALUE (128*128*255, EbMotionEstimation.h) from svt_initialize_buffer_32bits(p_sb_best_sad, 21, 1, MAX_SAD_VALUE),
+    // real SAD magnitudes afterwards.  (The SIMD kernels compare as signed 32 bit: values >= 2^31 are outside the callers' domain.)
+    int mode = (int)r.pick(0, 2);
+    if (mode == 0) for (size_t i = 0; i < n; i++) p[i] = 128u * 128u * 255u;
+    else r.fill(p, n, 0, mode == 1 ? 64 * 64 * 255 : 2000, what);
+}
+typedef void (*drv_ext_sad_8x8_16x16_fn)(uint8_t *, uint32_t, uint8_t *, uint32_t, uint32_t *, uint32_t *, uint32_t *, uint32_t *, uint32_t, uint32_t *, uint32_t *, EbBool);
+static void drv_ext_sad_8x8_16x16(Run &r) {
+    int ss = pick_stride(r, 16, 8), rs = pick_stride(r, 16);
+    int sub = (int)r.pick(0, 1);
+    In<uint8_t> src((size_t)ss * 16, 64, 8 * (size_t)r.pick(0, 7)), ref((size_t)rs * 16, 64, (size_t)r.pick(0, 63));
+    src.fill(r, 0, 255, "src"); ref.fill(r, 0, 255, "ref");
+    Out<uint32_t> b8(r, "p_best_sad_8x8", 4), b16(r, "p_best_sad_16x16", 1), m8(r, "p_best_mv8x8", 4), m16(r, "p_best_mv16x16", 1), s16(r, "p_sad16x16", 1), s8(r, "p_sad8x8", 4);
+    fill_best(r, b8.initp(), 4, "best8"); fill_best(r, b16.initp(), 1, "best16");
+    uint32_t mv = pick_me_mv(r);
+    r.note("sub_sad", sub);
+    r.exec([&](AnyFn f) { ((drv_ext_sad_8x8_16x16_fn)f)(src.p(), ss, ref.p(), rs, b8.p(), b16.p(), m8.p(), m16.p(), mv, s16.p(), s8.p(), (EbBool)sub); });
+}
+typedef void (*drv_ext_sad_32x32_64x64_fn)(uint32_t *, uint32_t *, uint32_t *, uint32_t *, uint32_t *, uint32_t, uint32_t *);
+static void drv_ext_sad_32x32_64x64(Run &r) {
+    In<uint32_t> s16(16, 64, 0);
+    s16.fill(r, 0, 16 * 16 * 255, "p_sad16x16");
+    Out<uint32_t> b32(r, "p_best_sad_32x32", 4), b64(r, "p_best_sad_64x64", 1), m32(r, "p_best_mv32x32", 4), m64(r, "p_best_mv64x64", 1), s32(r, "p_sad32x32", 4);
+    fill_best(r, b32.initp(), 4, "best32"); fill_best(r, b64.initp(), 1, "best64");
+    uint32_t mv = pick_me_mv(r);
+    r.exec([&](AnyFn f) { ((drv_ext_sad_32x32_64x64_fn)f)(s16.p(), b32.p(), b64.p(), m32.p(), m64.p(), mv, s32.p()); });
+}
+typedef void (*drv_ext_all_sad_8x8_16x16_fn)(uint8_t *, uint32_t, uint8_t *, uint32_t, uint32_t, uint32_t *, uint32_t *, uint32_t *, uint32_t *, uint32_t (*)[8], uint32_t (*)[8], EbBool);
+static void drv_ext_all_sad_8x8_16x16(Run &r) {
+    int ss = pick_stride(r, 64, 8), rs = pick_stride(r, 64 + 8);      // whole 64x64 SB against 8 horizontally adjacent search positions
+    int sub = (int)r.pick(0, 1);
+    In<uint8_t> src((size_t)ss * 64, 64, 8 * (size_t)r.pick(0, 7)), ref((size_t)rs * 64 + 8, 64, (size_t)r.pick(0, 63));
+    src.fill(r, 0, 255, "src"); ref.fill(r, 0, 255, "ref");
+    Out<uint32_t> b8(r, "p_best_sad_8x8", 64), b16(r, "p_best_sad_16x16", 16), m8(r, "p_best_mv8x8", 64), m16(r, "p_best_mv16x16", 16), e16(r, "p_eight_sad16x16", 16 * 8), e8(r, "p_eight_sad8x8", 64 * 8);
+    fill_best(r, b8.initp(), 64, "best8"); fill_best(r, b16.initp(), 16, "best16");
+    uint32_t mv = pick_me_mv(r);
+    r.note("sub_sad", sub);
+    r.exec([&](AnyFn f) { ((drv_ext_all_sad_8x8_16x16_fn)f)(src.p(), ss, ref.p(), rs, mv, b8.p(), b16.p(), m8.p(), m16.p(), (uint32_t(*)[8])e16.p(), (uint32_t(*)[8])e8.p(), (EbBool)sub); });
+}
+typedef void (*drv_ext_eight_sad_32x32_64x64_fn)(uint32_t (*)[8], uint32_t *, uint32_t *, uint32_t *, uint32_t *, uint32_t, uint32_t (*)[8]);
+static void drv_ext_eight_sad_32x32_64x64(Run &r) {
+    In<uint32_t> s16(16 * 8, 64, 0);
+    s16.fill(r, 0, 16 * 16 * 255, "p_sad16x16");
+    Out<uint32_t> b32(r, "p_best_sad_32x32", 4), b64(r, "p_best_sad_64x64", 1), m32(r, "p_best_mv32x32", 4), m64(r, "p_best_mv64x64", 1), s32(r, "p_sad32x32", 4 * 8);
+    fill_best(r, b32.initp(), 4, "best32"); fill_best(r, b64.initp(), 1, "best64");
+    uint32_t mv = pick_me_mv(r);
+    r.exec([&](AnyFn f) { ((drv_ext_eight_sad_32x32_64x64_fn)f)((uint32_t(*)[8])s16.p(), b32.p(), b64.p(), m32.p(), m64.p(), mv, (uint32_t(*)[8])s32.p()); });
+}
+// svt_sad_loop_kernel(src, sstride, ref, rstride, block_h, block_w, &best_sad, &x_center, &y_center, src_stride_raw, area_w, area_h)
+typedef void (*drv_sad_loop_fn)(uint8_t *, uint32_t, uint8_t *, uint32_t, uint32_t, uint32_t, uint64_t *, int16_t *, int16_t *, uint32_t, int16_t, int16_t);
+static void drv_sad_loop(Run &r) {
+    // HME level 2 / 1 / 0 = SB of the full / quarter / sixteenth picture.  Picture dimensions are multiples of 8, so SB width and height at the
+    // picture edges are multiples of 8 / 4 / 2 (<= 64 / 32 / 16); SUB_SAD_SEARCH halves the height (and doubles the strides).  Odd heights thus
+    // only occur with widths <= 16 (the wider AVX2/AVX-512 paths step two rows at a time).
+    int level = (int)r.pick(0, 2), unit = 8 >> level;
+    int sub = (int)r.pick(0, 1);
+    int bw = unit * (int)r.pick(1, 8), bh = (unit * (int)r.pick(1, 8)) >> sub;
+    int aw = r.pick(0, 1) ? 16 * (int)r.pick(1, 4) : (int)r.pick(1, 15);   // "search_area_width < 16 ? search_area_width : search_area_width & ~0x0F"
+    int ah = (int)r.pick(1, 16);
+    int raw = bw + aw + 16 + (int)r.pick(0, 64), rs = raw << sub, ss = pick_stride(r, bw) << sub;
+    In<uint8_t> src((size_t)ss * bh, 64, 2 * (size_t)r.pick(0, 31)), ref((size_t)raw * ah + (size_t)rs * bh + 64, 64, (size_t)r.pick(0, 63));
+    src.fill(r, 0, 255, "src"); ref.fill(r, 0, 255, "ref");
+    Out<uint64_t> best(r, "best_sad", 1); Out<int16_t> xc(r, "x_search_center", 1), yc(r, "y_search_center", 1);
+    r.note("block_w", bw); r.note("block_h", bh); r.note("area_w", aw); r.note("area_h", ah); r.note("sub", sub);
+    r.exec([&](AnyFn f) { ((drv_sad_loop_fn)f)(src.p(), ss, ref.p(), rs, bh, bw, best.p(), xc.p(), yc.p(), raw, (int16_t)aw, (int16_t)ah); });
+}
+
+// ---- palette k-means (palette.c; only dim 1 is reachable, dim 2 exercised by analogy) ---------------------------------------------------------
+typedef void (*drv_calc_indices_fn)(const int *, const int *, uint8_t *, int, int);
+typedef void (*drv_k_means_fn)(const int *, int *, uint8_t *, int, int, int);
+static void palette_common(Run &r, int dim, bool kmeans) {
+    int mx = r.pick(0, 1) ? 1023 : 255;
+    int rows = 8 * (int)r.pick(1, 8), cols = 8 * (int)r.pick(1, 8), n = rows * cols;     // visible part of an 8x8 .. 64x64 block
+    int k = (int)r.pick(2, 8);                                                          // PALETTE_MIN_SIZE .. PALETTE_MAX_SIZE
+    In<int> data((size_t)n * dim, 64, 0);
+    data.fill(r, 0, mx, "data");
+    Out<int> cent(r, "centroids", (size_t)k * dim, 0);
+    if (r.pick(0, 1)) { int lb = (int)r.pick(0, mx), ub = (int)r.pick(lb, mx); for (int i = 0; i < k * dim; i++) cent.initp()[i] = lb + (2 * (i / dim) + 1) * (ub - lb) / k / 2; }   // palette.c initial guess
+    else cent.fill_init(r, 0, mx, "centroids");
+    Out<uint8_t> idx(r, "indices", (size_t)n, 0);
+    r.note("n", n); r.note("k", k); r.note("dim", dim);
+    r.exec([&](AnyFn f) {
+        if (kmeans) ((drv_k_means_fn)f)(data.p(), cent.p(), idx.p(), n, k, 50);         // max_itr = 50
+        else ((drv_calc_indices_fn)f)(data.p(), cent.p(), idx.p(), n, k);
+    });
+}
+static void drv_calc_indices(Run &r) { palette_common(r, r.P(0), false); }
+static void drv_k_means(Run &r) { palette_common(r, r.P(0), true); }
+
+// svt_av1_get_gradient_hist(src, stride, rows, cols, hist[8]): accumulates into a zero-initialised histogram
+typedef void (*drv_gradient_hist_fn)(const uint8_t *, int, int, int, uint64_t *);
+static void drv_gradient_hist(Run &r) {
+    // angle_estimation() - the only caller - is itself never called: domain = the maintainers' test (AV1 block sizes; the AVX2 kernel
+    // handles cols == 4, 8 or a multiple of 16 only)
+    int bs = (int)r.pick(0, BlockSizeS_ALL - 1), rows = block_size_high[bs], cols = block_size_wide[bs];
+    int st = pick_stride(r, cols);
+    In<uint8_t> src((size_t)st * rows, 64, 4 * (size_t)r.pick(0, 15));
+    src.fill(r, 0, 255, "src");
+    Out<uint64_t> hist(r, "hist", 8);
+    memset(hist.initp(), 0, 8 * sizeof(uint64_t));
+    r.note("rows", rows); r.note("cols", cols);
+    r.exec([&](AnyFn f) { ((drv_gradient_hist_fn)f)(src.p(), st, rows, cols, hist.p()); });
+}
+
+// Block dimensions as the encoder's geometry produces them: an AV1 block size, optionally its 4:2:0 chroma plane (MAX(4, dim >> 1)).
+static inline void pick_block_dims(Run &r, int &w, int &h, bool allow_chroma = true) {
+    int bs = (int)r.pick(0, BlockSizeS_ALL - 1), chroma = allow_chroma ? (int)r.pick(0, 1) : 0;
+    w = block_size_wide[bs]; h = block_size_high[bs];
+    if (chroma) { w = w > 4 ? w >> 1 : 4; h = h > 4 ? h >> 1 : 4; }
+}
+
+// ---- residual / subtract ------------------------------------------------------------------------------------------------------------
+typedef void (*drv_residual8_fn)(uint8_t *, uint32_t, uint8_t *, uint32_t, int16_t *, uint32_t, uint32_t, uint32_t);
+typedef void (*drv_residual16_fn)(uint16_t *, uint32_t, uint16_t *, uint32_t, int16_t *, uint32_t, uint32_t, uint32_t);
+template <class PIX> static void residual_common(Run &r, bool hbd) {
+    long long mx = hbd ? 1023 : 255;
+    int w, h; pick_block_dims(r, w, h);
+    int is = pick_stride(r, w, 4), ps = pick_stride(r, w, 4), rs = pick_stride(r, w, 4);
+    In<PIX> in((size_t)is * h, 64, 4 * (size_t)r.pick(0, 15)), pred((size_t)ps * h, 64, 4 * (size_t)r.pick(0, 15));
+    in.fill(r, 0, mx, "input"); pred.fill(r, 0, mx, "pred");
+    Out<int16_t> res(r, "residual", (size_t)rs * h, 4 * (size_t)r.pick(0, 15));
+    res.rect(w, h, rs, true);
+    r.note("w", w); r.note("h", h);
+    r.exec([&](AnyFn f) {
+        if (!hbd) ((drv_residual8_fn)f)((uint8_t *)in.p(), is, (uint8_t *)pred.p(), ps, res.p(), rs, w, h);
+        else ((drv_residual16_fn)f)((uint16_t *)in.p(), is, (uint16_t *)pred.p(), ps, res.p(), rs, w, h);
+    });
+}
+static void drv_residual8(Run &r) { residual_common<uint8_t>(r, false); }
+static void drv_residual16(Run &r) { residual_common<uint16_t>(r, true); }
+
+typedef void (*drv_subtract_block_fn)(int, int, int16_t *, ptrdiff_t, const uint8_t *, ptrdiff_t, const uint8_t *, ptrdiff_t);
+typedef void (*drv_subtract_block_hbd_fn)(int, int, int16_t *, ptrdiff_t, const uint8_t *, ptrdiff_t, const uint8_t *, ptrdiff_t, int);
+template <class PIX> static void subtract_common(Run &r, bool hbd) {
+    long long mx = hbd ? 1023 : 255;
+    int w, h; pick_block_dims(r, w, h, false);
+    if (r.pick(0, 7) == 0) { w = 16; h = 16; }                 // rate control / ME: 16x16 macroblocks, stride 16
+    int ss = pick_stride(r, w), ps = r.pick(0, 1) ? w : pick_stride(r, w);
+    In<PIX> src((size_t)ss * h, 64, 4 * (size_t)r.pick(0, 15)), pred((size_t)ps * h, 64, 0);
+    src.fill(r, 0, mx, "src"); pred.fill(r, 0, mx, "pred");
+    Out<int16_t> diff(r, "diff", (size_t)w * h, 0);            // diff_stride = bw
+    r.note("rows", h); r.note("cols", w);
+    r.exec([&](AnyFn f) {
+        if (!hbd) ((drv_subtract_block_fn)f)(h, w, diff.p(), w, (const uint8_t *)src.p(), ss, (const uint8_t *)pred.p(), ps);
+        else ((drv_subtract_block_hbd_fn)f)(h, w, diff.p(), w, (const uint8_t *)src.p(), ss, (const uint8_t *)pred.p(), ps, 10);
+    });
+}
+static void drv_subtract_block(Run &r) { subtract_common<uint8_t>(r, false); }
+static void drv_subtract_block_hbd(Run &r) { subtract_common<uint16_t>(r, true); }
+
+// ---- svt_aom_sse / svt_aom_highbd_sse(a, a_stride, b, b_stride, width, height) -> int64 ------------------------------------------------
+typedef int64_t (*drv_aom_sse_fn)(const uint8_t *, int, const uint8_t *, int, int, int);
+template <class PIX> static void aom_sse_common(Run &r, bool hbd) {
+    long long mx = hbd ? 1023 : 255;
+    int w, h; pick_block_dims(r, w, h, false);
+    int as = pick_stride(r, w), bs = pick_stride(r, w);
+    In<PIX> a((size_t)as * h, 64, 4 * (size_t)r.pick(0, 15)), b((size_t)bs * h, 64, (size_t)r.pick(0, 31));
+    a.fill(r, 0, mx, "a"); b.fill(r, 0, mx, "b");
+    r.note("w", w); r.note("h", h);
+    r.exec([&](AnyFn f) { r.ret((long long)((drv_aom_sse_fn)f)((const uint8_t *)a.p(), as, (const uint8_t *)b.p(), bs, w, h)); });
+}
+static void drv_aom_sse(Run &r) { aom_sse_common<uint8_t>(r, false); }
+typedef drv_aom_sse_fn drv_aom_sse_hbd_fn;
+static void drv_aom_sse_hbd(Run &r) { aom_sse_common<uint16_t>(r, true); }
+
+// ---- spatial / 16-bit full distortion: (input, input_offset, in_stride, recon, recon_offset, recon_stride, w, h) -> uint64 ---------------
+typedef uint64_t (*drv_spatial_dist_fn)(uint8_t *, uint32_t, uint32_t, uint8_t *, int32_t, uint32_t, uint32_t, uint32_t);
+template <class PIX> static void spatial_dist_common(Run &r, bool hbd) {
+    long long mx = hbd ? 1023 : 255;
+    int w = 4 * (int)r.pick(1, 40), h = 4 * (int)r.pick(1, 16);     // cropped transform / block / picture widths: multiples of 4
+    int is = pick_stride(r, w, 4), rs = pick_stride(r, w, 4);
+    int io = 4 * (int)r.pick(0, 31), ro = 4 * (int)r.pick(0, 31);
+    In<PIX> in((size_t)is * h + io, 64, 0), rec((size_t)rs * h + ro, 64, 0);
+    in.fill(r, 0, mx, "input"); rec.fill(r, 0, mx, "recon");
+    r.note("w", w); r.note("h", h); r.note("in_stride", is); r.note("recon_stride", rs);
+    r.exec([&](AnyFn f) { r.ret((long long)((drv_spatial_dist_fn)f)((uint8_t *)in.p(), io, is, (uint8_t *)rec.p(), ro, rs, w, h)); });
+}
+static void drv_spatial_dist(Run &r) { spatial_dist_common<uint8_t>(r, false); }
+typedef drv_spatial_dist_fn drv_spatial_dist16_fn;
+static void drv_spatial_dist16(Run &r) { spatial_dist_common<uint16_t>(r, true); }
+
+// ---- conversions / pack / unpack ---------------------------------------------------------------------------------------------------------
+typedef void (*drv_convert_8to16_fn)(uint8_t *, uint32_t, uint16_t *, uint32_t, uint32_t, uint32_t);
+static void drv_convert_8to16(Run &r) {
+    int w = 4 * (int)r.pick(1, 32), h = 2 * (int)r.pick(1, 64);   // SB width/height at picture edges, chroma >> 1
+    int ss = pick_stride(r, w, 4), ds = pick_stride(r, w, 4);
+    In<uint8_t> src((size_t)ss * h, 64, 4 * (size_t)r.pick(0, 15));
+    src.fill(r, 0, 255, "src");
+    Out<uint16_t> dst(r, "dst", (size_t)ds * h, 4 * (size_t)r.pick(0, 15));
+    dst.rect(w, h, ds, true);
+    r.note("w", w); r.note("h", h);
+    r.exec([&](AnyFn f) { ((drv_convert_8to16_fn)f)(src.p(), ss, dst.p(), ds, w, h); });
+}
+typedef void (*drv_convert_16to8_fn)(uint16_t *, uint32_t, uint8_t *, uint32_t, uint32_t, uint32_t);
+static void drv_convert_16to8(Run &r) {
+    int w = 4 * (int)r.pick(1, 32), h = 2 * (int)r.pick(1, 64);
+    int ss = pick_stride(r, w, 4), ds = pick_stride(r, w, 4);
+    In<uint16_t> src((size_t)ss * h, 64, 4 * (size_t)r.pick(0, 15));
+    src.fill(r, 0, 255, "src");                                   // documented precondition: 16-bit buffer holding 8-bit content
+    Out<uint8_t> dst(r, "dst", (size_t)ds * h, 4 * (size_t)r.pick(0, 15));
+    dst.rect(w, h, ds, true);
+    r.note("w", w); r.note("h", h);
+    r.exec([&](AnyFn f) { ((drv_convert_16to8_fn)f)(src.p(), ss, dst.p(), ds, w, h); });
+}
+// svt_pack2d_16_bit_src_mul4(in8, in8_stride, inn, out16, inn_stride, out_stride, w, h): out = (in8 << 2) | (inn >> 6)
+typedef void (*drv_pack2d_fn)(uint8_t *, uint32_t, uint8_t *, uint16_t *, uint32_t, uint32_t, uint32_t, uint32_t);
+static void drv_pack2d(Run &r) {
+    int w = 4 * (int)r.pick(1, 40), h = 2 * (int)r.pick(1, 32);   // pack2d_src(): kernel only when (w & 3) == 0 && (h & 1) == 0
+    int s8 = pick_stride(r, w, 4), sn = pick_stride(r, w, 4), so = pick_stride(r, w, 4);
+    In<uint8_t> in8((size_t)s8 * h, 64, 4 * (size_t)r.pick(0, 15)), inn((size_t)sn * h, 64, 4 * (size_t)r.pick(0, 15));
+    in8.fill(r, 0, 255, "in8");
+    { std::vector<uint8_t> t(inn.total()); r.fill(t.data(), t.size(), 0, 3, "inn2"); for (size_t i = 0; i < t.size(); i++) inn.lo()[i] = (uint8_t)(t[i] << 6); }   // 2 LSBs stored in bits 7:6
+    Out<uint16_t> out(r, "out16", (size_t)so * h, 4 * (size_t)r.pick(0, 15));
+    out.rect(w, h, so, true);
+    r.note("w", w); r.note("h", h);
+    r.exec([&](AnyFn f) { ((drv_pack2d_fn)f)(in8.p(), s8, inn.p(), out.p(), sn, so, w, h); });
+}
+// svt_un_pack2d_16_bit_src_mul4(in16, in_stride, out8, outn, out8_stride, outn_stride, w, h)
+typedef void (*drv_unpack2d_fn)(uint16_t *, uint32_t, uint8_t *, uint8_t *, uint32_t, uint32_t, uint32_t, uint32_t);
+static void drv_unpack2d(Run &r) {
+    int w = 4 * (int)r.pick(1, 40), h = 2 * (int)r.pick(1, 32);
+    int si = pick_stride(r, w, 4), s8 = pick_stride(r, w, 4), sn = pick_stride(r, w, 4);
+    In<uint16_t> in((size_t)si * h, 64, 4 * (size_t)r.pick(0, 15));
+    in.fill(r, 0, 1023, "in16");
+    Out<uint8_t> o8(r, "out8", (size_t)s8 * h, 4 * (size_t)r.pick(0, 15)), on(r, "outn", (size_t)sn * h, 4 * (size_t)r.pick(0, 15));
+    o8.rect(w, h, s8, true); on.rect(w, h, sn, true);
+    r.note("w", w); r.note("h", h);
+    r.exec([&](AnyFn f) { ((drv_unpack2d_fn)f)(in.p(), si, o8.p(), on.p(), s8, sn, w, h); });
+}
+// svt_compressed_packmsb(in8, in8_stride, inn(4 px per byte), out16, inn_stride, out_stride, w, h): compressed_pack_sb() calls it for w == 32 | 64 only
+typedef void (*drv_compressed_packmsb_fn)(uint8_t *, uint32_t, uint8_t *, uint16_t *, uint32_t, uint32_t, uint32_t, uint32_t);
+static void drv_compressed_packmsb(Run &r) {
+    int w = r.pick(0, 1) ? 64 : 32, h = 2 * (int)r.pick(1, 32);
+    int s8 = pick_stride(r, w, 8), sn = w / 4 + 4 * (int)r.pick(0, 4), so = pick_stride(r, w, 8);
+    In<uint8_t> in8((size_t)s8 * h, 64, 8 * (size_t)r.pick(0, 7)), inn((size_t)sn * h, 64, 4 * (size_t)r.pick(0, 7));
+    in8.fill(r, 0, 255, "in8"); inn.fill(r, 0, 255, "inn");
+    Out<uint16_t> out(r, "out16", (size_t)so * h, 8 * (size_t)r.pick(0, 7));
+    out.rect(w, h, so, true);
+    r.note("w", w); r.note("h", h);
+    r.exec([&](AnyFn f) { ((drv_compressed_packmsb_fn)f)(in8.p(), s8, inn.p(), out.p(), sn, so, w, h); });
+}
+
+// ---- transform-domain distortion: result[0] = sum (c - r)^2, result[1] = sum c^2 -----------------------------------------------------------
+typedef void (*drv_full_dist32_fn)(int32_t *, uint32_t, int32_t *, uint32_t, uint64_t *, uint32_t, uint32_t);
+typedef void (*drv_full_dist32_cbf0_fn)(int32_t *, uint32_t, uint64_t *, uint32_t, uint32_t);
+static void full_dist32_common(Run &r, bool cbf0) {
+    // picture_full_distortion32_bits(): w,h = transform dims clamped to 32 (luma) / chroma transform dims, both strides == w
+    static const int d[4] = {4, 8, 16, 32};
+    int w = d[(int)r.pick(0, 3)], h = d[(int)r.pick(0, 3)];
+    if (w * 4 < h) h = w * 4; if (h * 4 < w) w = h * 4;
+    int bd = r.pick(0, 1) ? 10 : 8;
+    In<int32_t> c((size_t)w * h, 64, 0), q((size_t)w * h, 64, 0);
+    memset(c.lo(), 0, c.total() * 4); memset(q.lo(), 0, q.total() * 4);
+    if (!make_coeffs(r, w, h, DCT_DCT, bd, 0, c.p(), false)) return;
+    memcpy(q.p(), c.p(), (size_t)w * h * 4);
+    shape_coeffs(r, w, h, DCT_DCT, bd, q.p());                 // the de-quantised version of the same block
+    Out<uint64_t> res(r, "distortion_result", 2);
+    r.note("w", w); r.note("h", h); r.note("bd", bd);
+    r.exec([&](AnyFn f) {
+        if (cbf0) ((drv_full_dist32_cbf0_fn)f)(c.p(), w, res.p(), w, h);
+        else ((drv_full_dist32_fn)f)(c.p(), w, q.p(), w, res.p(), w, h);
+    });
+}
+static void drv_full_dist32(Run &r) { full_dist32_common(r, false); }
+static void drv_full_dist32_cbf0(Run &r) { full_dist32_common(r, true); }
+
+// ---- small helpers ---------------------------------------------------------------------------------------------------------------------------
+typedef void (*drv_memcpy_fn)(void *, void const *, size_t);
+static void drv_memcpy(Run &r) {
+    size_t n = (size_t)(r.pick(0, 3) == 0 ? r.pick(0, 8192) : r.pick(0, 300));
+    In<uint8_t> src(n, 64, (size_t)r.pick(0, 63));
+    src.fill(r, 0, 255, "src");
+    Out<uint8_t> dst(r, "dst", n, (size_t)r.pick(0, 63));
+    r.note("size", (long long)n);
+    r.exec([&](AnyFn f) { ((drv_memcpy_fn)f)(dst.p(), src.p(), n); });
+}
+typedef uint32_t (*drv_log2f_fn)(uint32_t);
+static void drv_log2f(Run &r) {
+    // callers pass non-zero block sizes / variances; powers of two and their neighbours are the interesting values
+    int k = (int)r.pick(0, 31); long long base = 1LL << k, x = base + r.pick(-1, 1);
+    if (r.pick(0, 3) == 0) x = r.pick(1, 0xffffffffLL);
+    if (x < 1) x = 1; if (x > 0xffffffffLL) x = 0xffffffffLL;
+    r.nontrivial = x > 1; r.note("x", x);
+    r.exec([&](AnyFn f) { r.ret(((drv_log2f_fn)f)((uint32_t)x)); });
+}
+typedef void (*drv_init_buffer32_fn)(uint32_t *, uint32_t, uint32_t, uint32_t);
+static void drv_init_buffer32(Run &r) {
+    int c128 = (int)r.pick(1, 64), c32 = (int)r.pick(0, 3);      // callers: (21, 1, MAX_SAD_VALUE), (64, 0, 1)
+    long long v = r.edge(0, 0xffffffffLL);
+    Out<uint32_t> buf(r, "buffer", (size_t)c128 * 4 + c32, (size_t)r.pick(0, 3));
+    r.nontrivial = true; r.note("count128", c128); r.note("count32", c32);
+    r.exec([&](AnyFn f) { ((drv_init_buffer32_fn)f)(buf.p(), c128, c32, (uint32_t)v); });
+}
+typedef int64_t (*drv_calc_frame_error_fn)(const uint8_t *const, int, const uint8_t *const, int, int, int);
+static void drv_calc_frame_error(Run &r) {
+    int w = (int)r.pick(1, 80), h = (int)r.pick(1, 40);          // warp_error(): min(32, remaining) blocks; svt_av1_frame_error(): whole frame
+    int rs = r.pick(0, 1) ? 32 + (w > 32 ? w : 0) : pick_stride(r, w), ds = pick_stride(r, w);
+    if (rs < w) rs = w;
+    In<uint8_t> ref((size_t)rs * h, 64, (size_t)r.pick(0, 31)), dst((size_t)ds * h, 64, (size_t)r.pick(0, 31));
+    ref.fill(r, 0, 255, "ref"); dst.fill(r, 0, 255, "dst");
+    r.note("w", w); r.note("h", h);
+    r.exec([&](AnyFn f) { r.ret((long long)((drv_calc_frame_error_fn)f)(ref.p(), rs, dst.p(), w, h, ds)); });
+}
+
+// ---- quantizers ------------------------------------------------------------------------------------------------------------------------------
+// One row of the Quants / Dequants tables exactly as svt_av1_build_quantizer() fills it for (qindex, bit depth, delta 0):
+// [0] = DC, [1..7] = AC repeated to SIMD width, 16-byte aligned.
+struct QRow { int16_t zbin[8], round[8], quant[8], shift[8], dequant[8], round_fp[8], quant_fp[8]; };
+static void build_qrow(QRow &t, int q, int bd) {
+    const int qzbin_factor = get_qzbin_factor(q, (AomBitDepth)bd), qrounding_factor = q == 0 ? 64 : 48;
+    for (int i = 0; i < 2; i++) {
+        int d = i == 0 ? svt_av1_dc_quant_qtx(q, 0, (AomBitDepth)bd) : svt_av1_ac_quant_qtx(q, 0, (AomBitDepth)bd);
+        invert_quant(&t.quant[i], &t.shift[i], d);
+        t.quant_fp[i] = (int16_t)((1 << 16) / d);
+        t.round_fp[i] = (int16_t)((64 * d) >> 7);
+        t.zbin[i] = (int16_t)((qzbin_factor * d + 64) >> 7);
+        t.round[i] = (int16_t)((qrounding_factor * d) >> 7);
+        t.dequant[i] = (int16_t)d;
+    }
+    for (int i = 2; i < 8; i++) { t.zbin[i] = t.zbin[1]; t.round[i] = t.round[1]; t.quant[i] = t.quant[1]; t.shift[i] = t.shift[1]; t.dequant[i] = t.dequant[1]; t.round_fp[i] = t.round_fp[1]; t.quant_fp[i] = t.quant_fp[1]; }
+}
+static const int k_tx_scale_tab[TX_SIZES_ALL] = {0, 0, 0, 1, 2, 0, 0, 0, 0, 1, 1, 2, 2, 0, 0, 0, 0, 1, 1};   // EbFullLoop.h av1_get_tx_scale_tab
+
+typedef void (*drv_quantize_b_fn)(const TranLow *, intptr_t, const int16_t *, const int16_t *, const int16_t *, const int16_t *, TranLow *, TranLow *, const int16_t *, uint16_t *, const int16_t *, const int16_t *, const QmVal *, const QmVal *, const int32_t);
+typedef void (*drv_quantize_fp_fn)(const TranLow *, intptr_t, const int16_t *, const int16_t *, const int16_t *, const int16_t *, TranLow *, TranLow *, const int16_t *, uint16_t *, const int16_t *, const int16_t *);
+typedef void (*drv_quantize_fp_hbd_fn)(const TranLow *, intptr_t, const int16_t *, const int16_t *, const int16_t *, const int16_t *, TranLow *, TranLow *, const int16_t *, uint16_t *, const int16_t *, const int16_t *, int16_t);
+// kind: 0 quantize_b (8-bit), 1 highbd_quantize_b, 2 fp (log_scale 0), 3 fp_32x32 (1), 4 fp_64x64 (2), 5 highbd_fp
+static void quantize_common(Run &r, int kind) {
+    std::vector<int> sizes;
+    for (int t = 0; t < TX_SIZES_ALL; t++) {
+        int ls = k_tx_scale_tab[t];
+        if (kind == 2 && ls != 0) continue; if (kind == 3 && ls != 1) continue; if (kind == 4 && ls != 2) continue;
+        sizes.push_back(t);
+    }
+    int txs = sizes[(size_t)r.pick(0, (long long)sizes.size() - 1)], w = tx_size_wide[txs], h = tx_size_high[txs], ls = k_tx_scale_tab[txs];
+    int n = av1_get_max_eob((TxSize)txs);
+    int hbd = kind == 1 || kind == 5;
+    int bd = hbd ? (r.pick(0, 1) ? 10 : 8) : 8;                    // highbd kernels also serve 8-bit content in the 16-bit pipeline
+    int type = pick_tx_type(r, w, h);
+    int q = (int)r.edge(0, 255);
+    In<int16_t> tab(sizeof(QRow) / 2, 64, 0);                     // 16-byte aligned rows (64-byte aligned here; each member is 16 bytes)
+    memset(tab.lo(), 0, tab.total() * 2);
+    QRow *T = (QRow *)tab.p(); build_qrow(*T, q, bd);
+    In<int32_t> coef((size_t)w * h, 64, 16 * (size_t)r.pick(0, 3));   // coefficient buffers: 32-byte aligned (buffer_y + txb_1d_offset)
+    memset(coef.lo(), 0, coef.total() * 4);
+    if (!make_coeffs(r, w, h, type, bd, 0, coef.p(), true)) return;
+    Out<int32_t> qc(r, "qcoeff", (size_t)n, 16 * (size_t)r.pick(0, 3)), dq(r, "dqcoeff", (size_t)n, 16 * (size_t)r.pick(0, 3));
+    Out<uint16_t> eob(r, "eob", 1);
+    const int16_t *scan = av1_scan_orders[txs][type].scan, *iscan = av1_scan_orders[txs][type].iscan;
+    r.note("tx_size", txs); r.note("n_coeffs", n); r.note("log_scale", ls); r.note("bd", bd); r.note("qindex", q); r.note("tx_type", type);
+    r.exec([&](AnyFn f) {
+        if (kind <= 1) ((drv_quantize_b_fn)f)(coef.p(), n, T->zbin, T->round, T->quant, T->shift, qc.p(), dq.p(), T->dequant, eob.p(), scan, iscan, nullptr, nullptr, ls);
+        else if (kind <= 4) ((drv_quantize_fp_fn)f)(coef.p(), n, T->zbin, T->round_fp, T->quant_fp, T->shift, qc.p(), dq.p(), T->dequant, eob.p(), scan, iscan);
+        else ((drv_quantize_fp_hbd_fn)f)(coef.p(), n, T->zbin, T->round_fp, T->quant_fp, T->shift, qc.p(), dq.p(), T->dequant, eob.p(), scan, iscan, (int16_t)ls);
+    });
+}
+static void drv_quantize_b(Run &r) { quantize_common(r, r.P(0)); }
+static void drv_quantize_fp(Run &r) { quantize_common(r, 2 + r.P(0)); }
+static void drv_quantize_fp_hbd(Run &r) { quantize_common(r, 5); }
+
+// ---- entropy-coding helpers ----------------------------------------------------------------------------------------------------------------
+typedef void (*drv_txb_init_levels_fn)(const TranLow *const, const int32_t, const int32_t, uint8_t *const);
+static void drv_txb_init_levels(Run &r) {
+    int txs = (int)r.pick(0, TX_SIZES_ALL - 1);
+    int w = tx_size_wide[txs] > 32 ? 32 : tx_size_wide[txs], h = tx_size_high[txs] > 32 ? 32 : tx_size_high[txs];   // get_txb_wide_tab / get_txb_high_tab
+    In<int32_t> coef((size_t)w * h, 64, 16 * (size_t)r.pick(0, 3));
+    // quantised levels: the highbd quantisers have no int16 clamp, |qcoeff| reaches (2^17 << log_scale) / 4 = 131071 at qindex 0, 10 bit.
+    // mild domain (C07_MILD): levels that fit int16.
+    long long lim = r.mild ? 32767 : 131071;
+    coef.fill(r, -lim, lim, "qcoeff");
+    Out<uint8_t> lv(r, "levels_buf", TX_PAD_2D, 0);
+    int stride = w + TX_PAD_HOR;
+    // Compared: the padded level map, rows -TX_PAD_TOP .. height + TX_PAD_BOTTOM - 1.  The trailing TX_PAD_END (16 bytes) exists only so that
+    // vector loads of the consumers stay inside the array; the C reference happens to zero it, the AVX2 kernel leaves it alone, no consumer
+    // uses its value (the maintainers' EncodeTxbAsmTest excludes it as well).
+    lv.only_prefix((size_t)(h + TX_PAD_VER) * stride);
+    r.note("w", w); r.note("h", h);
+    r.exec([&](AnyFn f) { ((drv_txb_init_levels_fn)f)(coef.p(), w, h, lv.p() + TX_PAD_TOP * stride); });
+}
+typedef void (*drv_get_nz_map_contexts_fn)(const uint8_t *const, const int16_t *const, const uint16_t, const TxSize, const TxClass, int8_t *const);
+static void drv_get_nz_map_contexts(Run &r) {
+    AnyFn init = find_cref("svt_av1_txb_init_levels");
+    if (!init) { r.skip("no svt_av1_txb_init_levels"); return; }
+    int txs = (int)r.pick(0, TX_SIZES_ALL - 1), tw = tx_size_wide[txs], th = tx_size_high[txs];
+    int w = tw > 32 ? 32 : tw, h = th > 32 ? 32 : th;
+    int type = pick_tx_type(r, tw, th);
+    const int16_t *scan = av1_scan_orders[txs][type].scan;
+    int eob = (int)r.pick(1, w * h);
+    In<int32_t> coef((size_t)w * h, 64, 0);
+    coef.fill(r, -300, 300, "qcoeff");
+    memset(coef.lo(), 0, (size_t)((char *)coef.p() - (char *)coef.lo()));
+    for (int i = eob; i < w * h; i++) coef[scan[i]] = 0;
+    if (coef[scan[eob - 1]] == 0) coef[scan[eob - 1]] = 1;             // eob = last non-zero position + 1
+    In<uint8_t> lv(TX_PAD_2D, 64, 0);
+    memset(lv.lo(), 0, lv.total());
+    int stride = w + TX_PAD_HOR;
+    ((drv_txb_init_levels_fn)init)(coef.p(), w, h, lv.p() + TX_PAD_TOP * stride);
+    Out<int8_t> ctx(r, "coeff_contexts", (size_t)w * h, 0);             // DECLARE_ALIGNED(16, int8_t, coeff_contexts[MAX_TX_SQUARE])
+    ctx.mask.assign(ctx.n, 0);
+    for (int i = 0; i < eob; i++) ctx.mask[(size_t)scan[i]] = 1;        // the C reference writes only coeff_contexts[scan[i]], i < eob
+    r.note("tx_size", txs); r.note("tx_type", type); r.note("eob", eob);
+    r.exec([&](AnyFn f) { ((drv_get_nz_map_contexts_fn)f)(lv.p() + TX_PAD_TOP * stride, scan, (uint16_t)eob, (TxSize)txs, tx_type_to_class[type], ctx.p()); });
+}
+typedef int (*drv_aom_satd_fn)(const TranLow *, int);
+static void drv_aom_satd(Run &r) {
+    static const int ls[7] = {16, 32, 64, 128, 256, 512, 1024};        // av1_get_max_eob() values; 256 for the 16x16 hadamard callers
+    int n = ls[(int)r.pick(0, 6)];
+    In<int32_t> c((size_t)n, 64, 8 * (size_t)r.pick(0, 7));
+    c.fill(r, -32640, 32640, "coeff");                                  // "coeff: 16 bits, dynamic range [-32640, 32640]" (common_dsp_rtcd.c)
+    r.note("length", n);
+    r.exec([&](AnyFn f) { r.ret(((drv_aom_satd_fn)f)(c.p(), n)); });
+}
+typedef int64_t (*drv_block_error_fn)(const TranLow *, const TranLow *, intptr_t, int64_t *);
+static void drv_block_error(Run &r) {
+    int n = 256;                                                        // only caller: TPL, 16x16 hadamard coefficients and their svt_av1_quantize_fp() output
+    In<int32_t> c((size_t)n, 64, 0), d((size_t)n, 64, 0);
+    c.fill(r, -8160, 8160, "coeff");
+    std::vector<int32_t> e((size_t)n); r.fill(e.data(), (size_t)n, -1828, 1828, "quant_error");
+    memset(d.lo(), 0, d.total() * 4);
+    for (int i = 0; i < n; i++) d[i] = c[i] + e[(size_t)i];
+    Out<int64_t> ssz(r, "ssz", 1);
+    r.exec([&](AnyFn f) { r.ret((long long)((drv_block_error_fn)f)(c.p(), d.p(), n, ssz.p())); });
+}
+
+// ---- kernels without a caller in the library: the maintainers' unit-test domain (test/PictureOperatorTest.cc, test/PackUnPackTest.cc) ---------
+typedef void (*drv_picture_average_fn)(EbByte, uint32_t, EbByte, uint32_t, EbByte, uint32_t, uint32_t, uint32_t);
+static void drv_picture_average(Run &r) {
+    static const int ws[7] = {4, 8, 16, 24, 32, 48, 64};
+    int w = ws[(int)r.pick(0, 6)], h = 2 * (int)r.pick(1, 32);
+    int s0 = pick_stride(r, w, 4), s1 = pick_stride(r, w, 4), ds = pick_stride(r, w, 4);
+    In<uint8_t> a((size_t)s0 * h, 64, 4 * (size_t)r.pick(0, 7)), b((size_t)s1 * h, 64, 4 * (size_t)r.pick(0, 7));
+    a.fill(r, 0, 255, "src0"); b.fill(r, 0, 255, "src1");
+    Out<uint8_t> dst(r, "dst", (size_t)ds * h, 4 * (size_t)r.pick(0, 7));
+    dst.rect(w, h, ds, true);
+    r.note("w", w); r.note("h", h);
+    r.exec([&](AnyFn f) { ((drv_picture_average_fn)f)(a.p(), s0, b.p(), s1, dst.p(), ds, w, h); });
+}
+typedef void (*drv_picture_average_1line_fn)(EbByte, EbByte, EbByte, uint32_t);
+static void drv_picture_average_1line(Run &r) {
+    static const int ws[7] = {4, 8, 16, 24, 32, 48, 64};
+    int w = ws[(int)r.pick(0, 6)];
+    In<uint8_t> a(64, 64, 0), b(64, 64, 0);
+    a.fill(r, 0, 255, "src0"); b.fill(r, 0, 255, "src1");
+    Out<uint8_t> dst(r, "dst", 64, 0);
+    dst.only_prefix((size_t)w);                                   // the SSE2 kernel rounds the width up (12 / 64 bytes); only [0, w) is defined
+    r.note("w", w);
+    r.exec([&](AnyFn f) { ((drv_picture_average_1line_fn)f)(a.p(), b.p(), dst.p(), w); });
+}
+typedef void (*drv_unpack_avg_fn)(uint16_t *, uint32_t, uint16_t *, uint32_t, uint8_t *, uint32_t, uint32_t, uint32_t);
+typedef void (*drv_unpack_avg_safe_sub_fn)(uint16_t *, uint32_t, uint16_t *, uint32_t, uint8_t *, uint32_t, EbBool, uint32_t, uint32_t);
+static void unpack_avg_common(Run &r, bool safe_sub) {
+    static const int ws[5] = {4, 8, 16, 32, 64};
+    int w = ws[(int)r.pick(safe_sub ? 1 : 0, 4)], h = 2 * (int)r.pick(1, 32);
+    int s0 = pick_stride(r, w, 8), s1 = pick_stride(r, w, 8), ds = pick_stride(r, w, 8);
+    In<uint16_t> a((size_t)s0 * h, 64, 0), b((size_t)s1 * h, 64, 0);
+    a.fill(r, 0, 1023, "ref16_l0"); b.fill(r, 0, 1023, "ref16_l1");
+    Out<uint8_t> dst(r, "dst", (size_t)ds * h, 0);
+    dst.rect(w, h, ds, true);
+    r.note("w", w); r.note("h", h);
+    r.exec([&](AnyFn f) {
+        if (!safe_sub) ((drv_unpack_avg_fn)f)(a.p(), s0, b.p(), s1, dst.p(), ds, w, h);
+        else ((drv_unpack_avg_safe_sub_fn)f)(a.p(), s0, b.p(), s1, dst.p(), ds, EB_FALSE, w, h);
+    });
+}
+static void drv_unpack_avg(Run &r) { unpack_avg_common(r, false); }
+static void drv_unpack_avg_safe_sub(Run &r) { unpack_avg_common(r, true); }
+typedef void (*drv_un_pack8_fn)(uint16_t *, uint32_t, uint8_t *, uint32_t, uint32_t, uint32_t);
+static void drv_un_pack8(Run &r) {
+    int w = 4 * (int)r.pick(1, 32), h = 2 * (int)r.pick(1, 32);
+    int si = pick_stride(r, w, 4), so = pick_stride(r, w, 4);
+    In<uint16_t> in((size_t)si * h, 64, 0);
+    in.fill(r, 0, 65535, "in16");
+    Out<uint8_t> out(r, "out8", (size_t)so * h, 0);
+    out.rect(w, h, so, true);
+    r.note("w", w); r.note("h", h);
+    r.exec([&](AnyFn f) { ((drv_un_pack8_fn)f)(in.p(), si, out.p(), so, w, h); });
+}
+typedef void (*drv_c_pack_fn)(const uint8_t *, uint32_t, uint8_t *, uint32_t, uint8_t *, uint32_t, uint32_t);
+static void drv_c_pack(Run &r) {
+    int w = r.pick(0, 1) ? 64 : 32; static const int hs32[4] = {8, 16, 32, 64}, hs64[3] = {16, 32, 64};
+    int h = w == 32 ? hs32[(int)r.pick(0, 3)] : hs64[(int)r.pick(0, 2)];
+    int is = 128, os = 32;
+    In<uint8_t> in((size_t)is * h, 64, 0); In<uint8_t> cache(256, 64, 0);
+    in.fill(r, 0, 255, "inn_bit_buffer"); memset(cache.lo(), 0, cache.total());
+    Out<uint8_t> out(r, "in_compn_bit_buffer", (size_t)os * h, 0);
+    out.rect(w / 4, h, os, true);
+    r.note("w", w); r.note("h", h);
+    r.exec([&](AnyFn f) { ((drv_c_pack_fn)f)(in.p(), is, out.p(), os, cache.p(), w, h); });
+}
 
 }  // namespace c07
